@@ -387,6 +387,7 @@ func (c *smCase) tryRace() bool {
 	n := c.peerMax[t] + r.Pick(1, 1, 2)
 	f0, c0 := v.NumFrames(), v.NumCreated()
 	var fA, fB, fM, fO int
+	var bDone, cDone bool
 	tryOpen := r.Intn(3) == 0
 	trySync := !tryOpen && r.Intn(2) == 0
 	var openID int64
@@ -404,7 +405,8 @@ func (c *smCase) tryRace() bool {
 		fA = v.NumFrames()
 		c.spawn(b, bctx)
 		synctest.Wait()
-		if q := v.SnapOut(uni).Queue; len(q) > 0 {
+		bDone = b.finished.Load()
+		if q := v.SnapOut(uni).Queue; len(q) > 0 && !bDone {
 			b.ch = q[len(q)-1]
 		}
 		fB = v.NumFrames()
@@ -416,7 +418,8 @@ func (c *smCase) tryRace() bool {
 		if trySync { // a new OpenStreamSync must queue up behind the waiting callers
 			c.spawn(cc, cctx)
 			synctest.Wait()
-			if q := v.SnapOut(uni).Queue; len(q) > 0 && !cc.finished.Load() {
+			cDone = cc.finished.Load()
+			if q := v.SnapOut(uni).Queue; len(q) > 0 && !cDone {
 				cc.ch = q[len(q)-1]
 			}
 		}
@@ -456,8 +459,16 @@ func (c *smCase) tryRace() bool {
 	opB := u.App("OSyncCall", u.B(uni), u.Z(b.w), "false")
 	// B's state right after the hook's Wait cannot be read any more; it parked iff it is still
 	// unfinished now or finished with a stream created after A's
-	c.step(opB, "RParked", all[fA-f0:fB-f0], fmt.Sprintf("opensync(%v,w%d,false)", uni, b.w))
-	c.waiters = append(c.waiters, b)
+	if bDone { // never on the unchanged code: the queue is not empty
+		if b.err == 0 {
+			c.monfail("fifo/overtaken-by-sync", fmt.Sprintf("OpenStreamSync returned stream %d at once while earlier callers are waiting", b.id))
+			c.monOpened(uni, b.id, "OpenStreamSync")
+		}
+		c.step(opB, smRes(b.id, b.err, false), all[fA-f0:fB-f0], fmt.Sprintf("opensync(%v,w%d,false)", uni, b.w))
+	} else {
+		c.step(opB, "RParked", all[fA-f0:fB-f0], fmt.Sprintf("opensync(%v,w%d,false)", uni, b.w))
+		c.waiters = append(c.waiters, b)
+	}
 	if n > c.peerMax[t] {
 		c.peerMax[t] = n
 	}
@@ -472,8 +483,16 @@ func (c *smCase) tryRace() bool {
 	if trySync {
 		opC := u.App("OSyncCall", u.B(uni), u.Z(cc.w), "false")
 		// C finished inside the hook only if it did not queue up
-		c.step(opC, "RParked", all[fM-f0:fO-f0], fmt.Sprintf("opensync(%v,w%d,false)", uni, cc.w))
-		c.waiters = append(c.waiters, cc)
+		if cDone {
+			if cc.err == 0 {
+				c.monfail("fifo/overtaken-by-sync", fmt.Sprintf("OpenStreamSync returned stream %d at once while earlier callers are waiting", cc.id))
+				c.monOpened(uni, cc.id, "OpenStreamSync")
+			}
+			c.step(opC, smRes(cc.id, cc.err, false), all[fM-f0:fO-f0], fmt.Sprintf("opensync(%v,w%d,false)", uni, cc.w))
+		} else {
+			c.step(opC, "RParked", all[fM-f0:fO-f0], fmt.Sprintf("opensync(%v,w%d,false)", uni, cc.w))
+			c.waiters = append(c.waiters, cc)
+		}
 	}
 	// A's own step comes first: its critical section precedes every wake-up it caused
 	for i, y := range c.waiters {
@@ -493,6 +512,16 @@ func (c *smCase) tryRace() bool {
 	}
 	c.collect(v.NumFrames(), c0)
 	return true
+}
+
+// C15(b): a new limit is answered with STREAMS_BLOCKED only if it still leaves a caller blocked
+// (checked when the bubble is quiescent after a MAX_STREAMS / transport parameters op).
+func (c *smCase) monSpuriousBlocked(fr []quic.VerifSMFrame) {
+	for _, f := range fr {
+		if f.Blocked && len(c.parkedWaiters(f.Uni)) == 0 {
+			c.monfail("blocked/spurious", fmt.Sprintf("STREAMS_BLOCKED(%d) queued on a new limit although no caller remains blocked", f.Num))
+		}
+	}
 }
 
 // C15(b): whenever opening fails or blocks because of the peer's limit, a STREAMS_BLOCKED for
@@ -799,6 +828,7 @@ func (c *smCase) doOp() {
 		fr, fe, cf := c.ext(func() { v.MaxStreams(uni, n) })
 		c.step(u.App("OMaxStreams", u.B(uni), u.Z(n)), "RUnit", fr, fmt.Sprintf("maxstreams(%v,%d)", uni, n))
 		c.collect(fe, cf)
+		c.monSpuriousBlocked(fr)
 	case k < 98: // transport parameters
 		nb := c.peerMax[0] + r.Pick(-1, 0, 1, 2, 4)
 		nu := c.peerMax[1] + r.Pick(-1, 0, 1, 2, 4)
@@ -817,6 +847,7 @@ func (c *smCase) doOp() {
 		fr, fe, cf := c.ext(func() { v.TransportParams(nb, nu) })
 		c.step(u.App("OTransportParams", u.Z(nb), u.Z(nu)), "RUnit", fr, fmt.Sprintf("tparams(%d,%d)", nb, nu))
 		c.collect(fe, cf)
+		c.monSpuriousBlocked(fr)
 	default:
 		switch {
 		case c.reset && r.Chance(2, 3):
@@ -919,8 +950,8 @@ func runSMCase(w *bufio.Writer, r *u.Rng, dist map[string]int) {
 	c := &smCase{w: w, r: r, failed: map[string]bool{}, deleted: map[int64]bool{}}
 	c.client = r.Bool()
 	lim := func() int64 {
-		if r.Chance(1, 30) {
-			return r.Pick(1<<60, 1<<60-1, 1<<60-2)
+		if r.Chance(1, 16) {
+			return r.Pick(1<<60, 1<<60-1, 1<<60-1, 1<<60-2)
 		}
 		return r.Pick(0, 1, 1, 2, 2, 3, 4, 100)
 	}
